@@ -1696,6 +1696,153 @@ fn ron_roundtrip_family(out: &mut Out) {
     }
 }
 
+// ------------------------------------------------------------------ flow rules end to end (C04): the template-encoded arithmetic
+// The rules of the statement live in Tera template strings (src/cli/flow/args/bumps.rs) evaluated by the interpreter across two
+// pipeline passes: no function contract states them.  The real flow pipeline is run on (tag, branch, distance, dirty, flags)
+// combinations and its resulting variables are compared with the statement, written here as plain arithmetic.
+
+fn flow_rules_family(out: &mut Out) {
+    use clap::Parser;
+    use zerv::cli::flow::{run_flow_pipeline, FlowArgs};
+    use zerv::version::zerv::core::Zerv;
+    let fam = "flow_rules";
+    // (tag text, major, minor, patch, pre-release?, post)
+    let tags: [(&str, u64, u64, u64, bool, Option<u64>); 3] = [("v1.2.3", 1, 2, 3, false, None), ("v1.2.3-beta.4", 1, 2, 3, true, None), ("v2.0.9-rc.1.post.5", 2, 0, 9, true, Some(5))];
+    let branches = ["main", "develop", "release/7/x", "release/x", "releases/3", "feature/42-thing", "feature/12/x", "a", "d", "hotfix//9", "日本語"];
+    let first_digits = |path: &str| -> Option<u32> { path.split('/').find(|s| !s.is_empty() && s.chars().all(|c| c.is_ascii_digit())).and_then(|s| s.parse().ok()) };
+    let run = |argv: &Vec<String>| -> Result<Zerv, String> {
+        let args = FlowArgs::try_parse_from(argv.iter()).map_err(|e| format!("arguments rejected: {}", e.to_string().lines().next().unwrap_or("")))?;
+        let text = run_flow_pipeline(args, None).map_err(|e| e.to_string())?;
+        Zerv::from_str(&text).map_err(|e| format!("output is not a Zerv object: {e}"))
+    };
+    for (tag, maj, min, pat, tag_pre, tag_post) in tags {
+        for branch in branches {
+            for distance in [0u64, 3] {
+                for dirty in [false, true] {
+                    for mode in [None, Some("tag"), Some("commit")] {
+                        for (flag_label, flag_num) in [(None, None), (Some("rc"), None), (None, Some(77u32)), (Some("beta"), Some(0u32))] {
+                            for hash_len in [5u32, 1, 10] {
+                                if hash_len != 5 && (distance == 0 || dirty || mode.is_some() || flag_label.is_some()) {
+                                    continue;
+                                }
+                                out.cases += 1;
+                                let mut argv: Vec<String> = vec!["flow".into(), "--source".into(), "none".into(), "--tag-version".into(), tag.into(), "--bumped-branch".into(), branch.into(),
+                                    "--distance".into(), distance.to_string(), "--output-format".into(), "zerv".into(), "--hash-branch-len".into(), hash_len.to_string()];
+                                argv.push(if dirty { "--dirty".into() } else { "--no-dirty".into() });
+                                if let Some(m) = mode { argv.push("--post-mode".into()); argv.push(m.into()); }
+                                if let Some(l) = flag_label { argv.push("--pre-release-label".into()); argv.push(l.into()); }
+                                if let Some(n) = flag_num { argv.push("--pre-release-num".into()); argv.push(n.to_string()); }
+                                let desc = format!("tag {tag} branch {branch:?} distance {distance} dirty {dirty} post-mode {mode:?} label {flag_label:?} num {flag_num:?} hash-len {hash_len}");
+                                let z = match run(&argv) {
+                                    Ok(z) => z,
+                                    Err(e) => {
+                                        let class = if hash_len == 10 { "class=hash-length-10-fails " } else { "" };
+                                        out.cex(fam, format!("{class}{desc}: flow fails: {e}"));
+                                        continue;
+                                    }
+                                };
+                                let v = &z.vars;
+                                let got = format!("{:?}.{:?}.{:?} pre {:?} post {:?} dev-set {}", v.major, v.minor, v.patch, v.pre_release.as_ref().map(|p| (p.label, p.number)), v.post, v.dev.is_some());
+                                if distance == 0 && !dirty {
+                                    // "nothing changed at a clean tagged commit"
+                                    if v.major != Some(maj) || v.minor != Some(min) || v.patch != Some(pat) || v.pre_release.is_some() != tag_pre || v.post != tag_post || v.dev.is_some() {
+                                        out.cex(fam, format!("{desc}: clean tagged commit changed the version: {got}"));
+                                    }
+                                    continue;
+                                }
+                                // the first matching default rule: develop -> beta 1 commit; release/* -> rc, number from the name, tag; * -> alpha, number from the name, commit
+                                let (rule_label, rule_num, rule_mode): (&str, Option<u32>, &str) = if branch == "develop" { ("beta", Some(1), "commit") }
+                                    else if branch.starts_with("release/") && branch.len() > "release/".len() { ("rc", first_digits(&branch["release/".len()..]), "tag") }
+                                    else { ("alpha", first_digits(branch), "commit") };
+                                let label = flag_label.unwrap_or(rule_label);
+                                let mode_eff = mode.unwrap_or(rule_mode);
+                                let want_patch = if tag_pre { pat } else { pat + 1 };
+                                let want_post = tag_post.unwrap_or(0) + if mode_eff == "tag" { 1 } else { distance };
+                                let want_dev = if mode_eff == "tag" { dirty || distance > 0 } else { dirty };
+                                let mut wrong: Vec<String> = Vec::new();
+                                if v.major != Some(maj) || v.minor != Some(min) || v.patch != Some(want_patch) { wrong.push(format!("core should be {maj}.{min}.{want_patch}")); }
+                                match &v.pre_release {
+                                    None => wrong.push("no pre-release".into()),
+                                    Some(p) => {
+                                        let l = match p.label { PreReleaseLabel::Alpha => "alpha", PreReleaseLabel::Beta => "beta", PreReleaseLabel::Rc => "rc" };
+                                        if l != label { wrong.push(format!("label should be {label}")); }
+                                        match flag_num.or(rule_num) {
+                                            Some(n) => if p.number != Some(n as u64) { wrong.push(format!("pre-release number should be {n}")); },
+                                            None => {
+                                                // branch hash: at most hash_len digits, no leading zero (a number: not zero-padded by construction), the same on a second run
+                                                let n = p.number.unwrap_or(0);
+                                                if n.to_string().len() > hash_len as usize { wrong.push(format!("branch hash {n} has more than {hash_len} digits")); }
+                                                if let Ok(z2) = run(&argv) {
+                                                    if z2.vars.pre_release.as_ref().and_then(|q| q.number) != p.number { wrong.push("branch hash differs between two runs".into()); }
+                                                }
+                                            }
+                                        }
+                                    }
+                                }
+                                if v.post.unwrap_or(0) != want_post { wrong.push(format!("post should be {want_post}")); }
+                                if v.dev.is_some() != want_dev { wrong.push(format!("dev timestamp should be {}", if want_dev { "set" } else { "absent" })); }
+                                if !wrong.is_empty() {
+                                    out.cex(fam, format!("{desc}: flow gives {got}; {}", wrong.join("; ")));
+                                }
+                            }
+                        }
+                    }
+                }
+            }
+        }
+    }
+}
+
+// ------------------------------------------------------------------ PEP 440 spellings (C11, text level): "all spellings of one version … compare equal"
+
+fn pep440_spellings_family(out: &mut Out) {
+    let fam = "pep440_spellings";
+    // each group: spellings of one version (case, separators, alternative labels, leading zeros, v prefix, trailing zero release numbers,
+    // explicit epoch 0, implicit numbers)
+    let groups: Vec<Vec<&str>> = vec![
+        vec!["1.0", "1", "1.0.0", "v1.0", "V1", "0!1.0", "00!1.0.0.0", "01.00"],
+        vec!["1.2a1", "1.2.a1", "1.2-a1", "1.2_a1", "1.2alpha1", "1.2.ALPHA.1", "1.2-alpha_1", "1.2A01", "v1.2.0a1", "1.2a.1", "1.2a-1", "1.2a_1"],
+        vec!["1.2b0", "1.2b", "1.2beta", "1.2.BETA", "1.2-b", "1.2.0.b0", "1.2beta00"],
+        vec!["2rc3", "2c3", "2pre3", "2preview3", "2.RC.3", "2-c-3", "2_preview_3", "2.0rc03", "2PRE3"],
+        vec!["1.0.post2", "1.0.post-2", "1.0-post2", "1.0post2", "1.0.rev2", "1.0-rev-2", "1.0r2", "1.0-r_2", "1.0-2", "1.0.POST.2", "1.0.0.post02", "1.0_post.2"],
+        vec!["1.0.post0", "1.0.post", "1.0post", "1.0.rev", "1.0-r", "1.0.POST"],
+        vec!["1.0.dev3", "1.0dev3", "1.0-dev3", "1.0_dev3", "1.0.dev-3", "1.0.dev.3", "1.0.DEV03", "1.0.0.dev3"],
+        vec!["1.0.dev0", "1.0.dev", "1.0dev", "1.0-DEV"],
+        vec!["3!1.0a2.post4.dev5+abc.1", "3!1.a2-4dev5+ABC-1", "v03!1.0.0alpha02.post.4.dev.5+abc_01", "3!1.0A2post4.DEV5+Abc.1"],
+        vec!["1.0+abc.5", "1.0+ABC.5", "1.0+abc-5", "1.0+abc_05", "1+Abc.005"],
+    ];
+    for g in &groups {
+        let mut parsed: Vec<(&str, PEP440)> = Vec::new();
+        for sp in g {
+            out.cases += 1;
+            match PEP440::from_str(sp) {
+                Ok(p) => parsed.push((sp, p)),
+                Err(e) => out.cex(fam, format!("spelling {sp:?} (of {:?}) is rejected: {e}", g[0])),
+            }
+        }
+        for (sa, a) in &parsed {
+            for (sb, b) in &parsed {
+                out.cases += 1;
+                if a.cmp(b) != Ordering::Equal || a != b {
+                    out.cex(fam, format!("spellings {sa:?} and {sb:?} of one version do not compare equal: cmp = {:?}, == is {}", a.cmp(b), a == b));
+                }
+            }
+        }
+    }
+    // and different versions stay different: the first spelling of each group against the first of every other group
+    for (i, g) in groups.iter().enumerate() {
+        for (j, h) in groups.iter().enumerate() {
+            if i == j { continue; }
+            out.cases += 1;
+            if let (Ok(a), Ok(b)) = (PEP440::from_str(g[0]), PEP440::from_str(h[0])) {
+                if a.cmp(&b) == Ordering::Equal || a == b {
+                    out.cex(fam, format!("different versions {:?} and {:?} compare equal", g[0], h[0]));
+                }
+            }
+        }
+    }
+}
+
 fn main() {
     let fam = std::env::args().nth(1).unwrap_or_default();
     let thorough = std::env::args().nth(2).as_deref() == Some("thorough");
@@ -1739,6 +1886,8 @@ fn run_family(fam: &str, out: &mut Out) {
         "template_functions" => template_family(&mut out),
         "semver_from_zerv" => placement_family(&mut out, true),
         "bump_sequence" => bump_sequence_family(&mut out),
+        "pep440_spellings" => pep440_spellings_family(&mut out),
+        "flow_rules" => flow_rules_family(&mut out),
         "ron_roundtrip" => ron_roundtrip_family(&mut out),
         "semver_roundtrip" => semver_roundtrip_family(&mut out),
         "pep440_roundtrip" => pep440_roundtrip_family(&mut out),
